@@ -215,7 +215,8 @@ def run(tier, seed, replay_case=None):
     aud = core.audit(PROP)
     n_single, n_multi = (400, 15) if tier == 'quick' else (5000, 200)
     items = []
-    is_empty = replay_case is not None and 'empty_catalog' in replay_case
+    is_empty = replay_case is not None and ('empty_catalog' in replay_case or
+                                            '_damaged_gzip' in replay_case)
     corpus = core.load_corpus(PROP) if replay_case is None else ([] if is_empty else [replay_case])
     if corpus:
         items += eval_cases(None, 0, {'fixed': corpus})
